@@ -252,6 +252,8 @@ def same_output(got: str, exp) -> bool:
     """exact text equality, or numeric closeness when `exp` is {"approx": [...], "rtol":, "atol":}"""
     if isinstance(exp, str):
         return got == exp
+    if callable(exp):
+        return exp(got)
     try:
         vals = [float(x) for x in got.split()]
     except ValueError:
